@@ -333,5 +333,10 @@ def run(ctx):
         if k in used:
             continue
         r = rs[0]
+        if r.get("harness_error"):
+            # the harness itself failed: the property is not shown for this case, but this is no failing input of the library
+            ctx.violation(k, "the correspondence harness failed on a generated case: " + r["what"][:400],
+                          {"replay_py": REPLAY % (json.dumps(cases[r["case"]]), r["key"]), "harness_error": True}, found_input=False)
+            continue
         ctx.violation(k, "%s (%d failing checks with this key)" % (r["what"][:400], len(rs)),
                       {"replay_py": REPLAY % (json.dumps(cases[r["case"]]), r["key"]), "observed": r["observed"], "expected": r["expected"]}, found_input=True)
